@@ -46,6 +46,9 @@ type Scenario struct {
 	Slicing    bool     `json:"slicing,omitempty"` // source reader answers are choice points
 	OldS       string   `json:"olds,omitempty"`    // bsdiff: old string
 	NewS       string   `json:"news,omitempty"`    // bsdiff: new string
+	OldSpec    string   `json:"oldspec,omitempty"` // bsdiff: old content spec (large inputs)
+	NewSpec    string   `json:"newspec,omitempty"`
+	Cap        int      `json:"cap,omitempty"` // scheduler variant: capacity replacing the scanner's 256-slot channels
 	Partitions int      `json:"partitions,omitempty"`
 	Conc       int      `json:"conc,omitempty"`
 	Bound      int      `json:"bound"`
@@ -89,6 +92,7 @@ func (s *slicingPool) GetReader(i int64) (io.Reader, error) {
 
 // prepared is a materialised scenario.
 type prepared struct {
+	seed           int64
 	sc             Scenario
 	oldDir, newDir string
 	patch          []byte // rediff input
@@ -96,7 +100,7 @@ type prepared struct {
 }
 
 func prepare(sc Scenario, scratch string, seed int64) (*prepared, error) {
-	p := &prepared{sc: sc}
+	p := &prepared{sc: sc, seed: seed}
 	if sc.Kind == "bsdiff" {
 		return p, nil
 	}
@@ -177,7 +181,11 @@ func (p *prepared) run(choose chooser) (string, error) {
 	case "bsdiff":
 		bdc := &bsdiff.DiffContext{Partitions: sc.Partitions, SuffixSortConcurrency: sc.Conc}
 		var msgs bytes.Buffer
-		err := bdc.Do(bytes.NewReader([]byte(sc.OldS)), bytes.NewReader([]byte(sc.NewS)), func(m proto.Message) error {
+		oldB, newB := []byte(sc.OldS), []byte(sc.NewS)
+		if sc.OldSpec != "" {
+			oldB, newB = wh.Content(sc.OldSpec, p.seed), wh.Content(sc.NewSpec, p.seed)
+		}
+		err := bdc.Do(bytes.NewReader(oldB), bytes.NewReader(newB), func(m proto.Message) error {
 			b, err := proto.Marshal(m)
 			if err != nil {
 				return err
@@ -201,6 +209,15 @@ func digest(parts ...[]byte) string {
 		h.Write(p)
 	}
 	return hex.EncodeToString(h.Sum(nil)[:12])
+}
+
+// largeScenarios are only run free (plain and race builds): outputs must not depend on
+// the number of CPUs. The scanner only splits inputs above 128KiB per block.
+func largeScenarios() []Scenario {
+	return []Scenario{
+		{Kind: "bsdiff", OldSpec: "r1/1600000", NewSpec: "r1/700000.=EDIT.r1/900000.r2/5000", Partitions: 2},
+		{Kind: "bsdiff", OldSpec: "r1/1200000", NewSpec: "r1/1200000.=tail", Partitions: 0},
+	}
 }
 
 func scenarios(quick bool) []Scenario {
@@ -242,6 +259,16 @@ func scenarios(quick bool) []Scenario {
 			out = append(out, Scenario{Kind: "bsdiff", OldS: c.o, NewS: c.n, Partitions: c.p, Conc: 2, Bound: 1})
 		}
 	}
+	// scanner with its 256-slot match channels scaled to 1 and 2 slots (scheduler variant
+	// only): "more matches than the channel holds" then needs 2-3 matches instead of 257
+	for _, capacity := range []int{1, 2} {
+		out = append(out,
+			Scenario{Kind: "bsdiff", OldS: "abcabcabc", NewS: "abcabd", Partitions: 2, Cap: capacity, Bound: b(1, 2)},
+			// one scan block yielding several matches (three reordered regions + fresh bytes)
+			Scenario{Kind: "bsdiff", OldS: "abcdefghijklmnopqrstuvwx0123456789yz", NewS: "0123456789yz--abcdefghijkl++mnopqrstuvwx", Partitions: 0, Cap: capacity, Bound: b(2, 3)},
+			Scenario{Kind: "bsdiff", OldS: "abcdefghijklmnopqrstuvwx0123456789yzABCDEFGHIJKL", NewS: "0123456789yz--abcdefghijkl++mnopqrstuvwx==ABCDEFGHIJKL..0123456789yz", Partitions: 2, Cap: capacity, Bound: b(1, 2)},
+		)
+	}
 	// --- optimizer: map-order ties (two old files reused equally) and plain cases
 	tieOld := wh.Build{wh.F("x", "A.=1"), wh.F("y", "B.=2")}
 	tieNew := wh.Build{wh.F("z", "A.B.=3")}
@@ -282,8 +309,12 @@ func body(w *runner.W) {
 		}
 		defer p.cleanup()
 		seen := map[string]int{}
-		for rep := 0; rep < 12; rep++ {
-			runtime.GOMAXPROCS([]int{1, 2, 4, 16}[rep%4])
+		reps := 12
+		if sc.OldSpec != "" {
+			reps = 5
+		}
+		for rep := 0; rep < reps; rep++ {
+			runtime.GOMAXPROCS([]int{1, 2, 4, 8, 16}[rep%5])
 			d, err := p.run(nil)
 			if err != nil {
 				r.Failf("error:"+sc.Kind, "%v", err)
@@ -293,14 +324,20 @@ func body(w *runner.W) {
 		}
 		runtime.GOMAXPROCS(runtime.NumCPU())
 		if len(seen) > 1 {
-			r.Failf("nondeterministic:"+sc.Kind+":free-running", "%d different outputs in 12 runs: %v", len(seen), seen)
+			r.Failf("nondeterministic:"+sc.Kind+":free-running", "%d different outputs under GOMAXPROCS 1,2,4,8,16: %v", len(seen), seen)
 		}
 		r.Nontrivial()
 		r.Outcome(sc.Kind)
 	}, runner.Journal())
 	if free.Active() {
 		for _, sc := range scenarios(w.Quick()) {
+			if sc.Cap != 0 {
+				continue
+			}
 			sc.Slicing = false
+			free.Do(sc)
+		}
+		for _, sc := range largeScenarios() {
 			free.Do(sc)
 		}
 		free.Done()
@@ -344,8 +381,16 @@ func body(w *runner.W) {
 			race.Skip("binary not built with -race")
 		} else {
 			for _, sc := range scenarios(w.Quick()) {
+				if sc.Cap != 0 {
+					continue
+				}
 				sc.Slicing = false
 				race.Do(sc)
+			}
+			if !w.Quick() {
+				for _, sc := range largeScenarios() {
+					race.Do(sc)
+				}
 			}
 			race.Done()
 		}
